@@ -581,6 +581,15 @@ def rule_foreach(text, ctx, bind=False):
                 hit = (s, toks[close + 1].e, recv, pat, body)
                 break
         if not hit:
+            if bind and 'verif_iter' not in text:
+                # the same loop written as a `for` statement over `RECV.keys()`: bind its iterator in the same way
+                m = re.search(r'for ([^{;]*?) in ([\w.]+\.keys\(\)) \{', text)
+                if m:
+                    ob = m.end() - 1
+                    cb = _balanced(text, ob)
+                    new = '{ let verif_iter = %s; for %s in verif_iter %s }' % (m.group(2), m.group(1), text[ob:cb + 1])
+                    ctx.note('R6', m.group(0), '{ let verif_iter = %s; for %s in verif_iter {' % (m.group(2), m.group(1)))
+                    text = text[:m.start()] + new + text[cb + 1:]
             return text
         s, e, recv, pat, body = hit
         if bind:
